@@ -157,6 +157,7 @@ fn budget(prop: &str, tier: &str, seed: u64, scale: f64) -> Budget {
             if checked {
                 sweeps.push(sweeps::c03_single_codeword(seed, if quick { 6 } else { 255 }));
                 sweeps.push(sweeps::c03_single_data_pixel(seed));
+                sweeps.push(sweeps::c03_impostor_messages());
                 sweeps.push(sweeps::c03_edge_pairs(seed, if quick { 10 } else { 255 }));
                 if !quick {
                     sweeps.push(sweeps::c03_sq10_weight2(seed));
@@ -177,6 +178,7 @@ fn budget(prop: &str, tier: &str, seed: u64, scale: f64) -> Budget {
             sweeps.push(sweeps::c05_long_streams());
             sweeps.push(sweeps::c05_c40_value_sequences());
             sweeps.push(sweeps::c05_charset_sections());
+            sweeps.push(sweeps::c05_repeated_atoms());
             sweeps.push(sweeps::structured_data_fills("C05"));
             if checked || !quick {
                 sweeps.push(sweeps::c05_huge_positions());
